@@ -69,7 +69,11 @@ type Store struct {
 	Subst   map[string][]byte // replacement bytes served for a CID (malformed-block placement)
 	// FailAddAt, when >0, makes the k-th (1-based) Add call fail with ErrCrash and every later one too.
 	FailAddAt int
-	addCalls  int
+	// FailAddOnly, when >0, makes exactly the k-th (1-based) Add call fail with ErrIO (a transient write error).
+	FailAddOnly int
+	// FailPinOnce makes the next Pin().Add fail with ErrIO.
+	FailPinOnce bool
+	addCalls    int
 	Hooks     *Hooks
 	// OnAdd, when set, is called after every successful first-time write (store closure checks).
 	OnAdd func(s *Store, c cid.Cid)
@@ -107,6 +111,11 @@ type pinSvc struct {
 
 //go:norace
 func (p pinSvc) Add(_ context.Context, pth path.Path, _ ...options.PinAddOption) error {
+	if p.s.FailPinOnce {
+		p.s.FailPinOnce = false
+		p.s.Calls = append(p.s.Calls, Call{Op: "pin", OK: false})
+		return ErrIO
+	}
 	p.s.Calls = append(p.s.Calls, Call{Op: "pin", OK: true})
 	return nil
 }
@@ -171,6 +180,10 @@ func (d dagSvc) Add(ctx context.Context, n format.Node) error {
 		s.Hooks.Access("blk:"+n.Cid().KeyString(), true)
 	}
 	s.addCalls++
+	if s.FailAddOnly > 0 && s.addCalls == s.FailAddOnly {
+		s.note(Call{Op: "add", Cid: n.Cid(), OK: false})
+		return ErrIO
+	}
 	if s.FailAddAt > 0 && s.addCalls >= s.FailAddAt {
 		s.note(Call{Op: "add", Cid: n.Cid(), OK: false})
 		return ErrCrash
